@@ -370,6 +370,14 @@ impl CompactionWorker {
                         .first()
                         .unwrap(),
                 );
+                #[cfg(feature = "verif")]
+                crate::verif::event(
+                    db_state.options.db_path(),
+                    crate::verif::Event::TrivialMove {
+                        file: file_to_compact.file_number(),
+                        level: compaction_manifest.level(),
+                    },
+                );
                 log::info!(
                     "Moved file with number {file_num} ({file_size} bytes) from level \
                     {parent_level} to level {new_level}. Level summary: {level_summary}",
@@ -532,6 +540,18 @@ impl CompactionWorker {
         db_state
             .has_immutable_memtable
             .store(false, Ordering::Release);
+        #[cfg(feature = "verif")]
+        {
+            let (file, level, size) = change_manifest
+                .new_files
+                .first()
+                .map(|(level, file)| (file.file_number(), *level, file.get_file_size()))
+                .unwrap_or((0, 0, 0));
+            crate::verif::event(
+                db_state.options.db_path(),
+                crate::verif::Event::Flush { file, level, size },
+            );
+        }
         DB::remove_obsolete_files(
             db_fields_guard,
             db_state.options.filesystem_provider(),
@@ -782,6 +802,33 @@ impl CompactionWorker {
                 &mut compaction_state,
             );
             compaction_error = install_result.err().map(|worker_error| worker_error.into());
+            #[cfg(feature = "verif")]
+            if compaction_error.is_none() {
+                let manifest = compaction_state.compaction_manifest();
+                crate::verif::event(
+                    db_state.options.db_path(),
+                    crate::verif::Event::Compaction {
+                        level: manifest.level(),
+                        inputs0: manifest
+                            .get_compaction_level_files()
+                            .iter()
+                            .map(|file| file.file_number())
+                            .collect(),
+                        inputs1: manifest
+                            .get_parent_level_files()
+                            .iter()
+                            .map(|file| file.file_number())
+                            .collect(),
+                        smallest_snapshot: compaction_state.get_smallest_snapshot(),
+                        outputs: compaction_state
+                            .get_output_files()
+                            .iter()
+                            .map(|file| file.file_number())
+                            .collect(),
+                        manual: db_fields_guard.maybe_manual_compaction.is_some(),
+                    },
+                );
+            }
         }
 
         if let Some(error) = compaction_error {
